@@ -19,6 +19,8 @@ import FordModel.ScopeBind
 import FordModel.Lemmas.ScopeBind
 import FordModel.ScopeSub
 import FordModel.Lemmas.ScopeSub
+import FordModel.ScopeAccess
+import FordModel.Lemmas.ScopeAccess
 import FordModel.Generated.C07
 namespace Ford.C07
 open Ford Ford.Scope
@@ -680,5 +682,129 @@ theorem slot_lookups_generated :
         Ford.C07Gen.slotLookups.lookup k == some ["all_procs"]) = true ∧
       Ford.C07Gen.lookupsIgnoreCase = true := by
   decide
+
+/-! ### Round 6: accessibility - a USE statement sees exactly the PUBLIC identifiers of a module -/
+
+section Access
+open Ford.ScopeAccess
+
+/-- **accessibility_is_fortran** ("use-associated" means: accessible).  The accessibility FORD has
+    settled for a declared entity at the moment the module's public tables are derived is the one
+    Fortran gives its identifier: the access statement that names it, else the access attribute of
+    the derived type of that name (so the generic interface named like a type - its user-defined
+    constructor - follows the type), else the module's default.  For every module, any number of
+    declarations and statements; hypotheses = the module is Fortran: an identifier is named by at most
+    one access statement, only type declarations carry an access attribute, type names are distinct,
+    a procedure or abstract interface is not named like a type. -/
+theorem accessibility_is_fortran (m : AModule) (d : ADecl) (hS : stmtsOnce m.stmts = true)
+    (hA : d.kind ≠ .ty → d.attr = none)
+    (hT : d.kind = .ty → typeNamed m.decls (lower d.name) = some d)
+    (hP : (d.kind = .pr ∨ d.kind = .ab) → typeNamed m.decls (lower d.name) = none) :
+    finalPerm asBuilt m d = accOf m (lower d.name) := by
+  have hl := lastPerm_eq_firstPerm m.stmts (lower d.name) hS
+  cases hk : d.kind with
+  | ty =>
+    have h1 := hT hk
+    simp [finalPerm, hk, declPerm, accOf, hl, h1]
+    cases firstPerm m.stmts (lower d.name) <;> simp
+  | gi =>
+    have ha := hA (by simp [hk])
+    cases ht : typeNamed m.decls (lower d.name) with
+    | none =>
+      simp [finalPerm, asBuilt, hk, ht, declPerm, accOf, hl, ha]
+      cases firstPerm m.stmts (lower d.name) <;> simp
+    | some t =>
+      have h3 := typeNamed_some _ _ _ ht
+      simp [finalPerm, asBuilt, hk, ht, declPerm, accOf, hl, h3.2.2]
+      cases firstPerm m.stmts (lower d.name) <;> simp
+  | pr =>
+    have ha := hA (by simp [hk])
+    have h1 := hP (Or.inl hk)
+    simp [finalPerm, hk, declPerm, accOf, hl, h1, ha]
+    cases firstPerm m.stmts (lower d.name) <;> simp
+  | ab =>
+    have ha := hA (by simp [hk])
+    have h1 := hP (Or.inr hk)
+    simp [finalPerm, hk, declPerm, accOf, hl, h1, ha]
+    cases firstPerm m.stmts (lower d.name) <;> simp
+
+/-- **constructor_shares_type_accessibility** ("a structure constructor ... denotes the entity that
+    Fortran's scoping rules designate"): when the public tables are derived, the generic interface
+    named like a derived type of the module has that type's accessibility - whatever was written on
+    the type statement, in access statements, or inherited from the module's default. -/
+theorem constructor_shares_type_accessibility (m : AModule) (g t : ADecl) (hg : g.kind = .gi)
+    (ht : typeNamed m.decls (lower g.name) = some t) :
+    finalPerm asBuilt m g = finalPerm asBuilt m t := by
+  have h3 := typeNamed_some _ _ _ ht
+  simp [finalPerm, asBuilt, hg, ht, h3.2.1]
+
+/-- **private_entities_not_exported** ("declarations ... invisible", "a name with no visible
+    declaration stays unresolved"): every entry of a public table FORD derives from a module's own
+    declarations is a declared entity of that kind whose accessibility is PUBLIC at that moment -
+    nothing PRIVATE is handed to a USE statement (any variant, any module). -/
+theorem private_entities_not_exported (v : AVariant) (m : AModule) (k : DK) (x : Str × Ent)
+    (h : x ∈ localPubK v m k m.decls) :
+    ∃ d ∈ m.decls, d.kind = k ∧ finalPerm v m d = .pub ∧ x = (lower d.name, d.ent) :=
+  localPubK_sound v m k m.decls x h
+
+/-- **public_entities_exported**: and every declared entity that is PUBLIC is in the public table of
+    its kind under its lower-cased name. -/
+theorem public_entities_exported (v : AVariant) (m : AModule) (d : ADecl) (hm : d ∈ m.decls)
+    (hp : finalPerm v m d = .pub) :
+    (lower d.name, d.ent) ∈ localPubK v m d.kind m.decls :=
+  localPubK_complete v m m.decls d hm hp
+
+/-- **reexport_follows_default**: what a module passes on of the entities it use-associates itself:
+    under the name `n` exactly what it imported, if the module's default is PUBLIC or `n` is on its
+    public list; nothing otherwise (a default-PRIVATE module hides what it uses unless a PUBLIC
+    statement names it). -/
+theorem reexport_follows_default (m : AModule) (tb : Table) (n : Str) :
+    tget (filterTable (shouldBePublic m) tb) n =
+      if m.dflt = .pub ∨ n ∈ publicList m then tget tb n else none := by
+  rw [filterTable_get]
+  simp [shouldBePublic]
+
+/-- m0: `type, private :: ta` (1) with the constructor idiom `interface ta` (2), default PUBLIC;
+    m1 uses m0 and declares its own `type ta` (3): slot 0 = constructor of m1's ta, slot 1 =
+    `procedure(ta)`; m2 uses m0 and declares `type ta` (4) with its own `interface ta` (5): slot 2 =
+    constructor of m2's ta. -/
+def wCtor : List AModule :=
+  [⟨['m','0'], .pub, [], [], [⟨.ty, ['t','a'], 1, some .priv⟩, ⟨.gi, ['T','a'], 2, none⟩], []⟩,
+   ⟨['m','1'], .pub, [], [⟨['m','0'], false, []⟩], [⟨.ty, ['t','a'], 3, none⟩],
+    [⟨0, .pr, .early, ['t','a']⟩, ⟨1, .pa, .early, ['T','A']⟩]⟩,
+   ⟨['m','2'], .pub, [], [⟨['M','0'], false, []⟩], [⟨.ty, ['t','a'], 4, none⟩, ⟨.gi, ['t','a'], 5, none⟩],
+    [⟨2, .pr, .early, ['t','a']⟩]⟩]
+
+/-- **constructor_sync_late_witness**: the order of the two steps is load-bearing.  If the
+    constructor gets its type's accessibility only after the public tables were derived, the
+    interface of the PRIVATE type is exported, becomes the "constructor" of the using modules' own
+    types `ta` (slots 0, 2) and the target of `procedure(ta)` (slot 1); settled before, nothing of
+    m0 is visible: no constructor / text / m2's own interface = the specification. -/
+theorem constructor_sync_late_witness :
+    (corrProjectA syncLate [] wCtor).map (·.2) = [some 2, some 2, some 2] ∧
+      (corrProjectA asBuilt [] wCtor).map (·.2) = [none, none, some 5] ∧
+      (specProjectA [] wCtor).map (·.2) = [none, none, some 5] := by decide
+
+/-- **access_generated** (regenerated table): on the translator's witness project (a default-PUBLIC
+    and a default-PRIVATE module with the constructor idiom with and without access attribute on the
+    type, access statements, users of both, a default-PRIVATE re-exporter with a PUBLIC statement, a
+    module declaring a type of a hidden name) the implementation under test stores in every
+    reference slot, and holds in every public table under every candidate name, exactly what the
+    model computes - and that is what the specification designates. -/
+theorem access_generated :
+    (corrProjectA asBuilt [] (Ford.C07Gen.accessWitness.map ofProbe)).map (fun r => (r.1.id, r.2)) =
+        Ford.C07Gen.accessSlots ∧
+      exportsAnswer (exportsProjectA asBuilt [] (Ford.C07Gen.accessWitness.map ofProbe))
+        Ford.C07Gen.accessExported = true ∧
+      (specProjectA [] (Ford.C07Gen.accessWitness.map ofProbe)).map (fun r => (r.1.id, r.2)) =
+        Ford.C07Gen.accessSlots := by decide
+
+/-- non-vacuity: the hypotheses of `accessibility_is_fortran` hold for both declarations of the
+    witness module m0, and the two accessibilities are PRIVATE -/
+example : stmtsOnce ([] : List (Perm × Str)) = true ∧
+    typeNamed [⟨.ty, ['t','a'], 1, some .priv⟩, ⟨.gi, ['T','a'], 2, none⟩] ['t','a'] =
+      some ⟨.ty, ['t','a'], 1, some .priv⟩ := by decide
+
+end Access
 
 end Ford.C07
